@@ -20,8 +20,47 @@ import (
 	"sort"
 	"strings"
 
+	"0chain.net/chaincore/block"
 	"verifharness/vh"
 )
+
+// ---------- slice aliasing across objects (outside the per-field lock table) ----------
+
+// aliasScenario merges one ticket list with spare capacity into two blocks that hold no tickets
+// (the fast path of MergeVerificationTickets keeps the caller's slice, so both blocks share one
+// backing array), then merges a different ticket into each block, sequentially (conc = false) or
+// from two goroutines. Property: each block ends up with exactly the shared tickets plus its own.
+func aliasScenario(conc bool) string {
+	mk := func(id string) *block.VerificationTicket { return &block.VerificationTicket{VerifierID: id} }
+	shared := make([]*block.VerificationTicket, 2, 8)
+	shared[0], shared[1] = mk("s1"), mk("s2")
+	a, b := &block.Block{}, &block.Block{}
+	a.MergeVerificationTickets(shared)
+	b.MergeVerificationTickets(shared)
+	if conc {
+		done := make(chan struct{})
+		go func() { a.MergeVerificationTickets([]*block.VerificationTicket{mk("a1")}); close(done) }()
+		b.MergeVerificationTickets([]*block.VerificationTicket{mk("b1")})
+		<-done
+	} else {
+		a.MergeVerificationTickets([]*block.VerificationTicket{mk("a1")})
+		b.MergeVerificationTickets([]*block.VerificationTicket{mk("b1")})
+	}
+	ids := func(x *block.Block) string {
+		var l []string
+		for _, t := range x.GetVerificationTickets() {
+			l = append(l, t.VerifierID)
+		}
+		return strings.Join(l, ",")
+	}
+	if ga, gb := ids(a), ids(b); ga != "s1,s2,a1" || gb != "s1,s2,b1" {
+		return fmt.Sprintf("block A holds [%s] (expected s1,s2,a1), block B holds [%s] (expected s1,s2,b1)", ga, gb)
+	}
+	return ""
+}
+
+const aliasSig = "C44:slice-alias:Block.VerificationTickets:MergeVerificationTickets"
+const aliasPair = "Block.VerificationTickets:alias/alias"
 
 type Lock struct {
 	Name string `json:"name"`
@@ -335,6 +374,15 @@ func main() {
 	sort.Strings(sigs)
 	rep.CountN("offending-pairs", len(sigs))
 
+	// slice aliasing across two objects: cheap functional variant in every tier
+	aliasFail := aliasScenario(false)
+	rep.Case("alias:Block.VerificationTickets:sequential", true, map[string]string{"scenario": "merge-alias"})
+	for i := 0; i < 200 && aliasFail == ""; i++ {
+		aliasFail = aliasScenario(true)
+	}
+	rep.Case("alias:Block.VerificationTickets:concurrent", true, map[string]string{"scenario": "merge-alias"})
+	rep.Count("alias-scenarios")
+
 	// search step: race detector
 	wantBuild := o.Thorough() || os.Getenv("VERIF_RACE") == "1" || only != nil
 	results := map[string]raceRes{}
@@ -342,6 +390,9 @@ func main() {
 		run := sigs
 		if only != nil {
 			run = []string{strings.TrimPrefix(only.Sig, "C44:")}
+			if only.Sig == aliasSig {
+				run = nil
+			}
 		} else if !wantBuild {
 			// quick tier with a cached binary: only pairs that are not already listed as defects
 			run = nil
@@ -350,6 +401,9 @@ func main() {
 					run = append(run, s)
 				}
 			}
+		}
+		if only == nil || only.Sig == aliasSig {
+			run = append(run, aliasPair)
 		}
 		results = runStress(bin, run)
 		rep.Note("race detector: instrumented stress binary %s ran %d pairs", filepath.Base(bin), len(run))
@@ -360,6 +414,9 @@ func main() {
 	for _, s := range sigs {
 		p := pairs[s]
 		if only != nil && p.Sig != only.Sig {
+			continue
+		}
+		if only != nil && only.Sig == aliasSig {
 			continue
 		}
 		d := fmt.Sprintf("unsynchronised conflicting accesses to %s.%s: %s", p.Type, p.Field, strings.Join(p.Sites, " ; "))
@@ -390,6 +447,19 @@ func main() {
 		rep.Violate(p.Sig, d, p)
 	}
 	rep.CountN("race-detector-confirmed", confirmed)
+	if r, ok := results[aliasPair]; ok && r.Race && aliasFail == "" {
+		aliasFail = "the race detector reports a data race while two goroutines merge tickets into two different blocks"
+	}
+	if aliasFail != "" {
+		d := "two Block objects that merged the same ticket list share its backing array and MergeVerificationTickets appends into it: " + aliasFail
+		p := &pairInfo{Sig: aliasSig, Type: "Block", Field: "VerificationTickets", MethodA: "alias", MethodB: "alias",
+			Stress: "cd /verif/harness && go run -race -tags verif ./cmd/racestress -pairs '" + aliasPair + "'"}
+		if r, ok := results[aliasPair]; ok && r.Race {
+			p.Race, p.Frames = r.Report, r.Frames
+			d += " -- Go race detector: DATA RACE at " + strings.Join(r.Frames, " ; ")
+		}
+		rep.Violate(aliasSig, d, p)
+	}
 
 	// one Coq case: the set of offending signatures as computed here
 	var cs []string
